@@ -25,6 +25,7 @@ func checkC04(c *Ctx, r *Report) {
 	r.Explanation = c04Explanation
 	r.Trusted = []string{"go/types resolution", "go/ssa translation", "RFC 3597 s.4 list of compressible RDATA names in checker/c04.go"}
 	c04R1(c, r)
+	pointerOffsetLimit(c, r, "C04.R2.pointer-offset-limit")
 	c04R2(c, r)
 	insertOnMissOnly(c, r, "C04.R3.insert-on-miss-only")
 	borrow(c, r, c08R5, "C08.R5.escape-skip", "C04.R3.escape-skip", 1, "escapedNameLen steps over a whole escape", nil, "the 255-octet test made where a compression pointer replaces the rest of a name undercounts names with escapes: a name of 256 octets is emitted, which no decoder accepts")
